@@ -746,6 +746,21 @@ func init() {
 	s["(net/netip.Addr).Less"] = func(ex *Exec, fr *Frame, st *State, c *callCtx) Val {
 		return boolV(app("bvult", c.args[0].L[0], c.args[1].L[0]))
 	}
+	s["(net/netip.Prefix).Addr"] = func(ex *Exec, fr *Frame, st *State, c *callCtx) Val {
+		// a Prefix is (ip, bitsPlusOne)
+		p := c.args[0]
+		if len(p.L) >= 2 {
+			return Val{T: c.results().At(0).Type(), L: []string{p.L[0]}}
+		}
+		return ex.freshVal("pfxaddr", c.results().At(0).Type())
+	}
+	s["(net/netip.Prefix).Bits"] = func(ex *Exec, fr *Frame, st *State, c *callCtx) Val {
+		p := c.args[0]
+		if len(p.L) >= 2 {
+			return intVal(app("bvsub", "((_ zero_extend 56) "+p.L[1]+")", bvLit(1, 64)))
+		}
+		return ex.freshVal("pfxbits", c.results().At(0).Type())
+	}
 	s["(net/netip.Prefix).Contains"] = func(ex *Exec, fr *Frame, st *State, c *callCtx) Val {
 		f := ex.declFun("uf|prefixContains", []string{sAddr, sBV(8), sAddr}, sBool)
 		p := c.args[0]
